@@ -286,7 +286,7 @@ def run(pid, tier, seed, replay=None):
         if replay:
             scripts = [vlib.read(replay)]
         else:
-            n = 700 if tier == "quick" else 12000
+            n = 700 if tier == "quick" else 4000
             scripts = [GEN[pid](rnd, "%sr%d.%d" % (pid, seed, i), rnd.choice(["epoll", "epoll-timerfd", "poll", "ppoll"])) for i in range(n)]
         tfs = corerun.run_scripts(exe, scripts, sc, tag="run")
         exhausted = []
@@ -295,7 +295,7 @@ def run(pid, tier, seed, replay=None):
             import mtcheck
             for name, (opts, body) in SMALL.get(pid, {}).items():
                 s_, t_, _n, complete = mtcheck.enumerate_schedules(exe, sc, name, body, "epoll " + opts, [],
-                                                                   150 if tier == "quick" else 3000, pid + "e")
+                                                                   150 if tier == "quick" else 800, pid + "e")
                 scripts += s_
                 tfs += t_
                 if complete:
